@@ -6,10 +6,12 @@
  * Module record (one TAB field each, in the order the context is expected to hold them):
  *      M    := ["+"] NAME "," REV "," IMPL "," GROUPS "," IMPORTS
  *      NAME := hex     REV := hex | "-"     IMPL := 0 | 1
- *      GROUPS  := G (";" G)*      G := "" | F ("+" F)*      F := hex ":" (0 | 1)
+ *      GROUPS  := G (";" G)*      G := "" | F ("+" F)*      F := hex ":" (0 | 1) [":" hex]
  *                 first group = features of the module itself, following groups = features of its submodules
- *                 (submodule k of module n is named n-s<k>), 1 = enabled
- *      IMPORTS := "" | I ("+" I)*         I := hex | hex "@" hex        (with / without revision-date)
+ *                 (submodule k of module n is named n-s<k>), 1 = enabled; the optional third part is the name of a
+ *                 feature of the same (sub)module that this feature depends on (if-feature)
+ *      IMPORTS := "" | I ("+" I)*         I := hex ["@" hex] ["^a" | "^d"]   (with / without revision-date;
+ *                 ^a: the module also augments the container of the imported module, ^d: it deviates its leaf x)
  *      a leading "+" marks a source that is only available to the import callback and is never loaded explicitly
  *      (it may still enter the context through an import).
  *   Building a context from records: every record with IMPL = 1 is loaded in order with ly_ctx_load_module(name, rev,
@@ -28,16 +30,32 @@
  *                                        # <compiled prints equal> <hash equal> <content-id == hash> <legacy ok>
  *                                        <records of the original context>`
  *        entry = m:NAME,REV,NS,FEATURES,DEVIATIONS  or  i:NAME,REV,NS   (read from the re-parsed JSON data), joined by |
+ *        fields "P:" idx ":" features before the records: ly_ctx_load_module(record idx, features) on the rebuilding
+ *        context BEFORE ly_ctx_new_ylmem is applied to it (an existing, populated context)
+ *   ylx <opts> X:<ropts>:<entry>:<osrc>:<rsrc>:<target> [P:idx:features]... M...
+ *        the round trip in every variant: ropts = options of the rebuilding context; entry = d (ly_ctx_new_yldata on
+ *        the tree) | mj | mx (ly_ctx_new_ylmem JSON / XML) | pj | px (ly_ctx_new_ylpath); osrc / rsrc = where the original /
+ *        the rebuilding context get module texts: c (import callback) | s (search directory) | b (both); target =
+ *        n (*ctx == NULL, needs rsrc = s) | e (an existing context, P operations applied first)
+ *        -> `<validation rc> <rebuild rc> # <hex names of implemented modules whose compiled print differs, + joined | ->
+ *            <P results> <all records of the original context> <all records of the rebuilt context>`
  */
 #include "common.h"
 
 #include <assert.h>
+#include <dirent.h>
 #include <stdarg.h>
+#include <sys/stat.h>
+#include <unistd.h>
 
 #include "libyang.h"
 #include "ly_common.h"
 #include "context.h"
 #include "tree_schema_internal.h"
+
+/* texts of the two internal modules that a LY_CTX_NO_YANGLIBRARY context lacks */
+extern unsigned char ietf_datastores_2018_02_14_yang[];        /* models/ietf-datastores@2018-02-14.h via context.c */
+extern unsigned char ietf_yang_library_2019_01_04_yang[];
 
 #define MAXM 32
 #define MAXG 8
@@ -47,6 +65,7 @@
 struct feat {
     char *name;
     int en;
+    char *dep;      /* if-feature, NULL = none */
 };
 
 struct grp {
@@ -57,6 +76,7 @@ struct grp {
 struct imp {
     char *name;
     char *rev;      /* NULL = no revision-date */
+    int kind;       /* 0 import only, 'a' augment, 'd' deviation */
 };
 
 struct msrc {
@@ -166,6 +186,7 @@ src_free(void)
         for (int g = 0; g < m->ng; g++) {
             for (int f = 0; f < m->g[g].nf; f++) {
                 free(m->g[g].f[f].name);
+                free(m->g[g].f[f].dep);
             }
             free(m->subtext[g]);
         }
@@ -215,7 +236,11 @@ gen_text(struct msrc *m)
         sb_fmt(&b, " revision %s;", m->rev);
     }
     for (int f = 0; f < m->g[0].nf; f++) {
-        sb_fmt(&b, " feature %s;", m->g[0].f[f].name);
+        if (m->g[0].f[f].dep) {
+            sb_fmt(&b, " feature %s {if-feature %s;}", m->g[0].f[f].name, m->g[0].f[f].dep);
+        } else {
+            sb_fmt(&b, " feature %s;", m->g[0].f[f].name);
+        }
     }
     sb_fmt(&b, " typedef t {type string {length \"0..%u\";}}", tnum(m));
     sb_fmt(&b, " container c-%s {", m->name);
@@ -226,7 +251,15 @@ gen_text(struct msrc *m)
     for (int k = 0; k < m->ni; k++) {
         sb_fmt(&b, " leaf u%d {type i%d:t;}", k, k);
     }
-    sb_fmt(&b, "}}");
+    sb_fmt(&b, "}");
+    for (int k = 0; k < m->ni; k++) {
+        if (m->imp[k].kind == 'a') {
+            sb_fmt(&b, " augment \"/i%d:c-%s\" {leaf aug-%s {type string;}}", k, m->imp[k].name, m->name);
+        } else if (m->imp[k].kind == 'd') {
+            sb_fmt(&b, " deviation \"/i%d:c-%s/i%d:x\" {deviate add {units \"u-%s\";}}", k, m->imp[k].name, k, m->name);
+        }
+    }
+    sb_fmt(&b, "}");
     m->text = b.s;
 
     for (int g = 1; g < m->ng; g++) {
@@ -234,7 +267,11 @@ gen_text(struct msrc *m)
 
         sb_fmt(&s, "submodule %s-s%d {yang-version 1.1; belongs-to %s {prefix p;}", m->name, g, m->name);
         for (int f = 0; f < m->g[g].nf; f++) {
-            sb_fmt(&s, " feature %s;", m->g[g].f[f].name);
+            if (m->g[g].f[f].dep) {
+                sb_fmt(&s, " feature %s {if-feature %s;}", m->g[g].f[f].name, m->g[g].f[f].dep);
+            } else {
+                sb_fmt(&s, " feature %s;", m->g[g].f[f].name);
+            }
         }
         sb_fmt(&s, " container c-%s-s%d {", m->name, g);
         sb_fmt(&s, " leaf y {type string;}");
@@ -251,7 +288,7 @@ static int
 src_parse(const char *field)
 {
     struct msrc *m;
-    char *copy, *part[5], *gs[MAXG], *fs[MAXF], *is[MAXI], *kv[2];
+    char *copy, *part[5], *gs[MAXG], *fs[MAXF], *is[MAXI], *kv[3], *hat;
     int n;
 
     if (NSRC >= MAXM) {
@@ -280,17 +317,26 @@ src_parse(const char *field)
         n = split(gs[g], '+', fs, MAXF);
         m->g[g].nf = n;
         for (int f = 0; f < n; f++) {
-            if (split(fs[f], ':', kv, 2) != 2) {
+            int nk = split(fs[f], ':', kv, 3);
+
+            if (nk < 2) {
                 free(copy);
                 return 0;
             }
             m->g[g].f[f].name = unhex_str(kv[0]);
             m->g[g].f[f].en = atoi(kv[1]);
+            m->g[g].f[f].dep = (nk == 3) ? unhex_str(kv[2]) : NULL;
         }
     }
     if (part[4][0]) {
         m->ni = split(part[4], '+', is, MAXI);
         for (int k = 0; k < m->ni; k++) {
+            hat = strchr(is[k], '^');
+            m->imp[k].kind = 0;
+            if (hat) {
+                m->imp[k].kind = hat[1];
+                *hat = 0;
+            }
             n = split(is[k], '@', kv, 2);
             m->imp[k].name = unhex_str(kv[0]);
             m->imp[k].rev = (n == 2) ? unhex_str(kv[1]) : NULL;
@@ -349,6 +395,14 @@ imp_clb(const char *mod_name, const char *mod_rev, const char *submod_name, cons
         }
     }
     if (!best) {
+        if (!strcmp(mod_name, "ietf-yang-library") && (!mod_rev || !strcmp(mod_rev, "2019-01-04"))) {
+            *module_data = (const char *)ietf_yang_library_2019_01_04_yang;
+            return LY_SUCCESS;
+        }
+        if (!strcmp(mod_name, "ietf-datastores") && (!mod_rev || !strcmp(mod_rev, "2018-02-14"))) {
+            *module_data = (const char *)ietf_datastores_2018_02_14_yang;
+            return LY_SUCCESS;
+        }
         return LY_ENOTFOUND;
     }
     *module_data = best->text;
@@ -372,15 +426,94 @@ feat_array(const struct msrc *m)
     return a;
 }
 
-static LY_ERR
-new_ctx(unsigned opts, struct ly_ctx **ctx)
-{
-    LY_ERR rc = ly_ctx_new(NULL, (uint16_t)(opts | LY_CTX_DISABLE_SEARCHDIR_CWD), ctx);
+/* ---------- search directory holding the generated texts ---------- */
+static char SDIR[64];
 
-    if (!rc) {
+static void
+sdir_write(const char *fname, const char *text)
+{
+    char path[600];
+    FILE *f;
+
+    snprintf(path, sizeof path, "%s/%s", SDIR, fname);
+    f = fopen(path, "w");
+    if (f) {
+        fputs(text, f);
+        fclose(f);
+    }
+}
+
+static const char *
+sdir_make(void)
+{
+    char fn[400];
+
+    if (SDIR[0]) {
+        return SDIR;
+    }
+    strcpy(SDIR, "/tmp/t_yl_XXXXXX");
+    if (!mkdtemp(SDIR)) {
+        SDIR[0] = 0;
+        return NULL;
+    }
+    for (int i = 0; i < NSRC; i++) {
+        if (SRC[i].rev) {
+            snprintf(fn, sizeof fn, "%s@%s.yang", SRC[i].name, SRC[i].rev);
+        } else {
+            snprintf(fn, sizeof fn, "%s.yang", SRC[i].name);
+        }
+        sdir_write(fn, SRC[i].text);
+        for (int g = 1; g < SRC[i].ng; g++) {
+            snprintf(fn, sizeof fn, "%s-s%d.yang", SRC[i].name, g);
+            sdir_write(fn, SRC[i].subtext[g]);
+        }
+    }
+    sdir_write("ietf-yang-library@2019-01-04.yang", (const char *)ietf_yang_library_2019_01_04_yang);
+    sdir_write("ietf-datastores@2018-02-14.yang", (const char *)ietf_datastores_2018_02_14_yang);
+    return SDIR;
+}
+
+static void
+sdir_remove(void)
+{
+    DIR *d;
+    struct dirent *e;
+    char path[600];
+
+    if (!SDIR[0]) {
+        return;
+    }
+    d = opendir(SDIR);
+    if (d) {
+        while ((e = readdir(d))) {
+            if (e->d_name[0] != '.') {
+                snprintf(path, sizeof path, "%s/%s", SDIR, e->d_name);
+                unlink(path);
+            }
+        }
+        closedir(d);
+    }
+    rmdir(SDIR);
+    SDIR[0] = 0;
+}
+
+/* src: 'c' import callback, 's' search directory, 'b' both */
+static LY_ERR
+new_ctx_src(unsigned opts, int src, struct ly_ctx **ctx)
+{
+    const char *dir = (src != 'c') ? sdir_make() : NULL;
+    LY_ERR rc = ly_ctx_new(dir, (uint16_t)(opts | LY_CTX_DISABLE_SEARCHDIR_CWD), ctx);
+
+    if (!rc && (src != 's')) {
         ly_ctx_set_module_imp_clb(*ctx, imp_clb, NULL);
     }
     return rc;
+}
+
+static LY_ERR
+new_ctx(unsigned opts, struct ly_ctx **ctx)
+{
+    return new_ctx_src(opts, 'c', ctx);
 }
 
 /* load / implement one record; returns LY_ERR */
@@ -396,9 +529,9 @@ load_rec(struct ly_ctx *ctx, const struct msrc *m, const char **feats)
 }
 
 static LY_ERR
-build_ctx(unsigned opts, int first, int last, struct ly_ctx **ctx)
+build_ctx_src(unsigned opts, int src, int first, int last, struct ly_ctx **ctx)
 {
-    LY_ERR rc = new_ctx(opts, ctx);
+    LY_ERR rc = new_ctx_src(opts, src, ctx);
 
     for (int i = first; !rc && (i < last); i++) {
         if (SRC[i].extra || !SRC[i].impl) {
@@ -431,9 +564,8 @@ put_features(struct sbuf *o, const struct lysp_feature *fs)
 
 /* records of all modules after the internal ones, as the hash function iterates them */
 static void
-put_records(struct sbuf *o, const struct ly_ctx *ctx)
+put_records_from(struct sbuf *o, const struct ly_ctx *ctx, uint32_t i)
 {
-    uint32_t i = ly_ctx_internal_modules_count(ctx);
     const struct lys_module *mod;
     int first = 1;
     LY_ARRAY_COUNT_TYPE u;
@@ -458,6 +590,12 @@ put_records(struct sbuf *o, const struct ly_ctx *ctx)
     }
 }
 
+static void
+put_records(struct sbuf *o, const struct ly_ctx *ctx)
+{
+    put_records_from(o, ctx, ly_ctx_internal_modules_count(ctx));
+}
+
 /* parse the M fields c->f[from..] up to a "/" field or the end; returns the index after the last one consumed
  * (the "/" is consumed), -1 on a malformed record */
 static int
@@ -474,6 +612,12 @@ parse_records(struct vcase *c, int from)
         }
     }
     return i;
+}
+
+static LY_ERR
+build_ctx(unsigned opts, int first, int last, struct ly_ctx **ctx)
+{
+    return build_ctx_src(opts, 'c', first, last, ctx);
 }
 
 /* ---------- yang-library helpers ---------- */
@@ -757,6 +901,208 @@ cmd_chg(struct vcase *c, struct sbuf *o)
     ly_ctx_destroy(ctx);
 }
 
+/* fields "X:..." / "P:..." between the options and the records; returns the index of the first record */
+static int
+skip_specs(struct vcase *c, int from, char **xspec, char **pf, int *np)
+{
+    int i = from;
+
+    *np = 0;
+    if (xspec) {
+        *xspec = NULL;
+    }
+    for ( ; i < c->nf; i++) {
+        if (!strncmp(c->f[i], "X:", 2) && xspec) {
+            *xspec = c->f[i];
+        } else if (!strncmp(c->f[i], "P:", 2) && (*np < 16)) {
+            pf[(*np)++] = c->f[i];
+        } else {
+            break;
+        }
+    }
+    return i;
+}
+
+/* P:idx:features -> ly_ctx_load_module() on ctx; the results are printed joined by , (- when there are none) */
+static void
+apply_preops(struct ly_ctx *ctx, char **pf, int np, struct sbuf *o)
+{
+    for (int i = 0; i < np; i++) {
+        char *w[3], *store[MAXG * MAXF] = {0}, *copy = strdup(pf[i]);
+        LY_ERR rc = LY_EINVAL;
+
+        if ((split(copy, ':', w, 3) == 3) && (atoi(w[1]) >= 0) && (atoi(w[1]) < NSRC)) {
+            const struct msrc *m = &SRC[atoi(w[1])];
+            const char **fa = feat_spec(w[2], store);
+
+            rc = ly_ctx_load_module(ctx, m->name, m->rev, fa) ? LY_SUCCESS : LY_EOTHER;
+            free(fa);
+            for (int k = 0; k < MAXG * MAXF; k++) {
+                free(store[k]);
+            }
+        }
+        free(copy);
+        if (o) {
+            sb_fmt(o, "%s%d", i ? "," : "", rc ? 1 : 0);
+        }
+        ly_err_clean(ctx, NULL);
+    }
+    if (!np && o) {
+        sb_add(o, "-", 1);
+    }
+}
+
+/* hex names (joined by +) of the modules implemented in a whose implemented namesake in b is missing or has another
+ * compiled print */
+static void
+put_compiled_diff(struct sbuf *o, const struct ly_ctx *a, const struct ly_ctx *b)
+{
+    uint32_t i = 0;
+    const struct lys_module *m, *m2;
+    int first = 1;
+
+    while ((m = ly_ctx_get_module_iter(a, &i))) {
+        char *p1 = NULL, *p2 = NULL;
+        int same = 0;
+
+        if (!m->implemented) {
+            continue;
+        }
+        m2 = ly_ctx_get_module_implemented(b, m->name);
+        if (m2 && !lys_print_mem(&p1, m, LYS_OUT_YANG_COMPILED, 0) && !lys_print_mem(&p2, m2, LYS_OUT_YANG_COMPILED, 0)) {
+            same = !strcmp(p1, p2);
+        }
+        free(p1);
+        free(p2);
+        if (!same) {
+            if (!first) {
+                sb_add(o, "+", 1);
+            }
+            first = 0;
+            sb_hex(o, m->name);
+        }
+    }
+    if (first) {
+        sb_add(o, "-", 1);
+    }
+}
+
+static void
+cmd_ylx(struct vcase *c, struct sbuf *o)
+{
+    struct ly_ctx *a = NULL, *b = NULL, *v = NULL;
+    unsigned oopts = (unsigned)strtoul(c->f[1], NULL, 0), ropts = 0;
+    struct lyd_node *yl = NULL, *yl2 = NULL;
+    char *xspec = NULL, *pf[16], *xw[6], *text = NULL, *json = NULL, *xcopy = NULL;
+    const char *entry = "mj", *sd = NULL;
+    int np = 0, first, osrc = 'c', rsrc = 'c', target = 'e';
+    LY_ERR rc;
+    struct sbuf pre = {0};
+    LYD_FORMAT fmt;
+
+    first = skip_specs(c, 2, &xspec, pf, &np);
+    if (xspec) {
+        xcopy = strdup(xspec);
+        if (split(xcopy, ':', xw, 6) == 6) {
+            ropts = (unsigned)strtoul(xw[1], NULL, 0);
+            entry = xw[2];
+            osrc = xw[3][0];
+            rsrc = xw[4][0];
+            target = xw[5][0];
+        }
+    }
+    if ((target == 'n') && (rsrc != 's')) {
+        sb_add(o, "?spec", 5);
+        goto cleanup;
+    }
+    if (parse_records(c, first) < 0) {
+        sb_add(o, "?rec", 4);
+        goto cleanup;
+    }
+    if (build_ctx_src(oopts, osrc, 0, NSRC, &a)) {
+        sb_add(o, "E", 1);
+        goto cleanup;
+    }
+    if (ly_ctx_get_yanglib_data(a, &yl, "%u", ly_ctx_get_modules_hash(a))) {
+        sb_add(o, "Eyl", 3);
+        goto cleanup;
+    }
+    if (lyd_print_mem(&json, yl, LYD_JSON, LYD_PRINT_WITHSIBLINGS)) {
+        sb_add(o, "Eprint", 6);
+        goto cleanup;
+    }
+    if (ly_ctx_new(NULL, LY_CTX_DISABLE_SEARCHDIR_CWD, &v)) {
+        sb_add(o, "Ectx", 4);
+        goto cleanup;
+    }
+    rc = lyd_parse_data_mem(v, json, LYD_JSON, LYD_PARSE_STRICT, LYD_VALIDATE_PRESENT, &yl2);
+    sb_fmt(o, "%d", (int)rc);
+
+    /* the rebuilding context */
+    if (target == 'e') {
+        if (new_ctx_src(ropts, rsrc, &b)) {
+            sb_add(o, " Ectx", 5);
+            goto cleanup;
+        }
+        apply_preops(b, pf, np, &pre);
+        if (np && (ropts & LY_CTX_EXPLICIT_COMPILE)) {
+            ly_ctx_compile(b);
+        }
+    } else {
+        sd = sdir_make();
+        sb_add(&pre, "-", 1);
+    }
+    fmt = (entry[1] == 'x') ? LYD_XML : LYD_JSON;
+    if (entry[0] == 'd') {
+        rc = ly_ctx_new_yldata(sd, yl, (int)(ropts | LY_CTX_DISABLE_SEARCHDIR_CWD), &b);
+    } else {
+        if (lyd_print_mem(&text, yl, fmt, LYD_PRINT_WITHSIBLINGS)) {
+            sb_add(o, " Eprint", 7);
+            goto cleanup;
+        }
+        if (entry[0] == 'p') {
+            char path[600];
+            FILE *f;
+
+            snprintf(path, sizeof path, "%s/yl-data.%s", sdir_make(), (fmt == LYD_XML) ? "xml" : "json");
+            f = fopen(path, "w");
+            if (f) {
+                fputs(text, f);
+                fclose(f);
+            }
+            rc = ly_ctx_new_ylpath(sd, path, fmt, (int)(ropts | LY_CTX_DISABLE_SEARCHDIR_CWD), &b);
+        } else {
+            rc = ly_ctx_new_ylmem(sd, text, fmt, (int)(ropts | LY_CTX_DISABLE_SEARCHDIR_CWD), &b);
+        }
+    }
+    sb_fmt(o, " %d # ", (int)rc);
+    if (rc || !b) {
+        if (target == 'n') {
+            b = NULL;
+        }
+        sb_fmt(o, "- %s ", pre.s);
+        put_records_from(o, a, 0);
+        sb_add(o, " -", 2);
+        goto cleanup;
+    }
+    put_compiled_diff(o, a, b);
+    sb_fmt(o, " %s ", pre.s);
+    put_records_from(o, a, 0);
+    sb_add(o, " ", 1);
+    put_records_from(o, b, 0);
+
+cleanup:
+    free(xcopy);
+    free(text);
+    free(json);
+    free(pre.s);
+    lyd_free_all(yl);
+    lyd_free_all(yl2);
+    ly_ctx_destroy(a);
+    ly_ctx_destroy(b);
+    ly_ctx_destroy(v);
+}
+
 static void
 cmd_ylrt(struct vcase *c, struct sbuf *o)
 {
@@ -766,8 +1112,10 @@ cmd_ylrt(struct vcase *c, struct sbuf *o)
     char *json = NULL;
     LY_ERR rc;
     uint32_t ha;
+    char *pf[16];
+    int np = 0, first = skip_specs(c, 2, NULL, pf, &np);
 
-    if (parse_records(c, 2) < 0) {
+    if (parse_records(c, first) < 0) {
         sb_add(o, "?rec", 4);
         return;
     }
@@ -806,6 +1154,7 @@ cmd_ylrt(struct vcase *c, struct sbuf *o)
         sb_add(o, " Ectx", 5);
         goto cleanup;
     }
+    apply_preops(b, pf, np, NULL);
     rc = ly_ctx_new_ylmem(NULL, json, LYD_JSON, (int)(opts & ~(unsigned)LY_CTX_EXPLICIT_COMPILE), &b);
     sb_fmt(o, " %d ", (int)rc);
     if (rc) {
@@ -859,10 +1208,13 @@ main(void)
             cmd_chg(&c, &o);
         } else if (!strcmp(comp, "ylrt") && (c.nf >= 2)) {
             cmd_ylrt(&c, &o);
+        } else if (!strcmp(comp, "ylx") && (c.nf >= 2)) {
+            cmd_ylx(&c, &o);
         } else {
             sb_add(&o, "?", 1);
         }
         src_free();
+        sdir_remove();
         fputs(o.s, stdout);
         free(o.s);
         VEND();
